@@ -331,8 +331,19 @@ def r154(ctx) -> None:
             inner = {id(x) for s in w.body for x in ast.walk(s)}
             early = [r.lineno for r in rets if id(r.stmt) in inner]
             late = [r for r in rets if id(r.stmt) not in inner]
+            # the block that allocates / records the acknowledged UID must
+            # be passed on every path to the return; any other write-back
+            # block (e.g. dropping the source record of a MOVE) may be
+            # conditional, but once entered it must be exited before the
+            # return
+            allocates = any(
+                (isinstance(x, ast.Call) and call_name(x) == 'set') or
+                (isinstance(x, ast.AugAssign) and 'next_uid' in txt(x.target))
+                for s_ in w.body for x in ast.walk(s_))
+            bypass = cfg.reach(ent, avoid=ex, labels=NORMAL)
             R.check(not early and bool(late) and all(
-                cfg.dominated_by(r, ex, labels=NORMAL) for r in late),
+                (cfg.dominated_by(r, ex, labels=NORMAL) if allocates
+                 else r not in bypass) for r in late),
                 f, w, f'{name}: the UID is returned only after the block '
                 f'exits (write-back done)',
                 f'a success return at line(s) {early} sits inside the '
